@@ -1,4 +1,5 @@
 -- Root of the `Neigh` library (property C17, neighbour set).
 import Neigh.Model
+import Neigh.Spec
 import Neigh.Lemmas
 import Neigh.Props
